@@ -154,10 +154,14 @@ def report(prop, args, seed, meta, results, static_results, bounded_results, wal
     proved = [o for o in obligations if o["status"] == "proved"]
     unknown = [o for o in obligations if o["status"] == "unknown"]
     refuted = [o for o in obligations if o["status"] == "refuted"]
-    static_failed = [s for s in static_results if not s["ok"]]
+    static_failed = [s for s in static_results if not s["ok"] and not s.get("undecided")]
+    static_undecided = [s for s in static_results if not s["ok"] and s.get("undecided")]
     bounded_failed = [b for b in bounded_results if not b["ok"]]
     by_backend = Counter(o["backend"] for o in proved)
-    by_backend["structural"] = sum(1 for s in static_results if s["ok"])
+    by_backend["structural"] = 0
+    for s in static_results:
+        if s["ok"]:
+            by_backend[s.get("backend", "structural")] += 1
     by_strength = Counter(o["strength"] for o in proved)
     for s in static_results:
         if s["ok"]:
@@ -233,7 +237,7 @@ def report(prop, args, seed, meta, results, static_results, bounded_results, wal
         code = 1
     if crashes or agreement_failed:
         code = 3 if code == 0 else code
-    elif (undecided or unknown) and code == 0:
+    elif (undecided or unknown or static_undecided) and code == 0:
         code = 2
     if n_obl == 0 and code == 0:
         code = 3
@@ -273,7 +277,7 @@ def report(prop, args, seed, meta, results, static_results, bounded_results, wal
             "by_strength": dict(by_strength),
             "refuted": len(refuted) + len(static_failed) - n_known_refuted,
             "refuted_by_known_findings": n_known_refuted,
-            "unknown": len(unknown),
+            "unknown": len(unknown) + len(static_undecided),
             "paths": sum(r["paths"] for r in results),
             "jobs": len(results),
             "shapes": {k: v[:60] for k, v in shapes.items()},
@@ -308,7 +312,7 @@ def report(prop, args, seed, meta, results, static_results, bounded_results, wal
     # ---- output
     print(
         f"{prop} [{args.tier}] contracts={len(meta)} jobs={len(results)} paths={ev['coverage']['paths']} "
-        f"obligations={n_obl} discharged={ev['coverage']['discharged']} refuted={ev['coverage']['refuted']} unknown={len(unknown)} "
+        f"obligations={n_obl} discharged={ev['coverage']['discharged']} refuted={ev['coverage']['refuted']} unknown={len(unknown) + len(static_undecided)} "
         f"backends={dict(by_backend)} strength={dict(by_strength)} agreement={ev['coverage']['agreement_runs']} "
         f"bounded={len(bounded_results)} wall={wall:.1f}s"
     )
@@ -318,6 +322,8 @@ def report(prop, args, seed, meta, results, static_results, bounded_results, wal
         print(f"UNDECIDED {r.get('contract')}[{r.get('case')}]: {r['error']}")
     for o in unknown[:20]:
         print(f"UNDECIDED obligation {o['name']}[{o['case']}] path={o['path']}: {o['reason']}")
+    for s in static_undecided:
+        print(f"UNDECIDED lemma {prop}.{s['contract']}.{s['name']}: {s.get('detail')}")
     for r, f in agreement_failed[:10]:
         print(f"ENGINE-DISAGREEMENT {r.get('contract')}[{r.get('case')}]: {f['detail']} env={f.get('env')}")
     for line in known_lines:
